@@ -221,7 +221,7 @@ func (e *Engine) verifyFuncPass(fc *FuncContract, proved map[string]bool, seed *
 	}
 	// sites that matched nothing
 	for _, s := range fc.Sites {
-		if f.siteHit[s] == 0 {
+		if f.siteHit[s] == 0 && !s.Optional {
 			u.errorf("site pattern %q matches no instruction (site-missing)", s.Pattern)
 		}
 	}
